@@ -587,9 +587,9 @@ func checkStateCases(f lib.Flags, res *lib.Result, drv *lib.Driver, cases []*Sta
 		for v, purge := range []bool{true, legacyPurgeVariant} {
 			var all []string
 			offs = offs[:0]
-			for i, c := range cases {
+			for _, c := range cases {
 				offs = append(offs, len(all))
-				all = append(all, stateModelLines(c, i%500, purge)...)
+				all = append(all, stateModelLines(c, 0, purge)...)
 			}
 			a, err := drv.AskAll(all)
 			if err != nil {
